@@ -68,6 +68,20 @@ func init() {
 		NontrivialRuleText["C07"], 300, 12000,
 		[]string{"fault_process_crash_images", "fault_second_crash_images", "images_ok", "merges", "reopen_after_recovery"},
 		"process crash only (the property says 'the process dies')")
+	meta("C12", "fault_enumeration", "deterministic simulation with fault injection: a small database is built on the simulated disk and closed; stored bytes of its data and hint files are then altered on copies (all single-bit flips for small trees, seeded header-biased flips otherwise, overwrites, truncations, garbage blocks) and Open / Get / Fold / the sequential reader are judged",
+		NontrivialRuleText["C12"], 500, 20000,
+		[]string{"fault_damage_flip", "fault_damage_overwrite", "fault_damage_truncate", "fault_damage_garbage", "exhaustive_flip_runs", "damage_detected_at_open", "damage_harmless_or_detected", "damage_exposed_prefix_state"},
+		"a random overwrite that carries a valid CRC-32 by chance (2^-32) is ignored", "a zero-filled run that reaches the end of its block is indistinguishable from file pre-extension by design and is not injected", "damage to the lock file and the merge-finished marker is not injected (the property is about data and hint files)")
+	concTech := "deterministic simulation: 2..16 client tasks (real goroutines, exactly one runnable) interleaved by the seeded cooperative scheduler at every lock boundary and file call (random / sticky / PCT-style bounded-preemption policies); "
+	meta("C08", "exploration", concTech+"per-key histories stamped with global event numbers checked with porcupine against a register model; live dump at quiescence == dump after restart",
+		NontrivialRuleText["C08"], 20000, 1500000,
+		[]string{"sched_switches", "lock_waits", "linearizability_checks", "live_vs_restart_checks", "conc_puts", "conc_dels", "conc_gets"},
+		"porcupine time-outs (20 s per key) are counted as inconclusive and never reported")
+	meta("C09", "exploration", concTech+"the binary is built with the Go race detector and the scheduler's hand-offs are invisible to it (runtime.RaceDisable around them, vsync emitting exactly sync's annotations), so reports are data races of the engine's own synchronisation on replayable schedules; plus panics, exact deadlock detection, undocumented errors",
+		NontrivialRuleText["C09"], 6000, 400000,
+		[]string{"sched_switches", "lock_waits", "conc_puts", "conc_lists", "conc_folds", "conc_iter_sessions", "conc_stats", "conc_syncs", "conc_batches", "conc_merges"},
+		"ThreadSanitizer keeps four accesses per 8-byte word: a race can be missed in one schedule, many schedules compensate", "races that need truly parallel torn multi-word accesses are reported as the same race; weak-memory effects beyond the Go memory model are out of reach")
+	Metas["C09"].Race = true
 	meta("C05", "exploration", seqTech+"layered overlay model for an open batch",
 		NontrivialRuleText["C05"], 12000, 400000,
 		[]string{"batches", "batch_repeat_key", "batch_put_then_delete", "batch_get_from_db", "rotations"})
